@@ -67,6 +67,9 @@ def _num(x):
     raise TypeError
 
 
+KEEP_ORDER = [False]
+
+
 def canon(x, depth=0):
     if depth > 12:
         return ["deep"]
@@ -84,10 +87,11 @@ def canon(x, depth=0):
         return [canon(e, depth + 1) for e in x]
     if isinstance(x, dict):
         items = [(canon(k, depth + 1), canon(v, depth + 1)) for k, v in x.items()]
-        try:
-            items.sort(key=lambda kv: repr(kv[0]))
-        except Exception:
-            pass
+        if not KEEP_ORDER[0]:
+            try:
+                items.sort(key=lambda kv: repr(kv[0]))
+            except Exception:
+                pass
         return ["dict"] + [[k, v] for k, v in items]
     if isinstance(x, (set, frozenset)):
         return ["set"] + sorted((canon(e, depth + 1) for e in x), key=repr)
